@@ -214,6 +214,13 @@ def conditions(tier):
     return out
 
 
+def validate_stubs():
+    out = []
+    from props import c03
+    out += c03.validate_stubs()          # tree wire against ET.tostring / expat
+    return out
+
+
 def signature(cond_name, args, detail):
     tr = " ".join((detail or {}).get("trace", []))
     f = cond_name.split("/")[1]
